@@ -74,13 +74,26 @@ pub fn sink_matrix(ctx: &Ctx, who: &str, a: &dyn Aml, replay: &dyn Fn() -> Value
             fail("Sdt sink (after writes) vs append_slice", s1.as_slice());
         }
     }
-    let mut pb = PackageBuilder::new();
-    a.to_aml_bytes(&mut pb);
-    let p = ser(&pb);
-    // 12 PkgLength 00 <data>
-    let w = crate::codecs::pkg_decode(&p[1..]).map(|x| x.1).unwrap_or(1);
-    if p.len() < 2 + w || p[2 + w..] != v1[..] {
-        fail("PackageBuilder sink", &p[(2 + w).min(p.len())..]);
+    // the package-builder sink, however the builder was obtained: new(), Default, and what core::mem::take leaves behind in a
+    // builder that was already used (the history principle: a builder's origin is state)
+    for origin in 0..3 {
+        let mut pb = match origin {
+            0 => PackageBuilder::new(),
+            1 => PackageBuilder::default(),
+            _ => {
+                let mut used = PackageBuilder::new();
+                used.add_element(&acpi_tables::aml::ONE);
+                let _ = core::mem::take(&mut used);
+                used
+            }
+        };
+        a.to_aml_bytes(&mut pb);
+        let p = ser(&pb);
+        // 12 PkgLength 00 <data>
+        let w = crate::codecs::pkg_decode(&p[1..]).map(|x| x.1).unwrap_or(1);
+        if p.len() < 2 + w || p[1 + w] != 0 || p[2 + w..] != v1[..] {
+            fail(["PackageBuilder sink", "PackageBuilder::default() sink", "PackageBuilder sink left by mem::take"][origin], &p[(2 + w).min(p.len())..]);
+        }
     }
 }
 
